@@ -16,6 +16,9 @@ def plan(tier, seed):
         jobs += rejections.jobs("C18", tier)
     except ImportError:
         pass
+    jobs.append(ch("C18", "vf/pyshim/h_write.py", "h_write_append_options", t,
+                   ["writer.write (append branch: up-front refusals)"]))
+    jobs.append(ch("C18", "vf/pyshim/h_c05.py", "h_unknown_filter_column", t, ["api.filter_row_groups (column check)"]))
     extra = dict(
         explanation="A late rejection (any exception out of a column write) is injected at a symbolic row-group "
                     "position after a symbolic number of bytes of that row group were written; the real write_simple "
